@@ -175,7 +175,9 @@ func c09Gen(c *engine.C) engine.Case {
 	for i := 0; i < ns; i++ {
 		stmts = append(stmts, c09Stmts[(c.Choose(len(c09Stmts), fmt.Sprintf("stmt%d", i))+i*5)%len(c09Stmts)])
 	}
-	header := engine.PickTag(c, "header-comment", "", "// TODO: file header", "/* é */", "/**\n * TODO (amy) doc header\n */", "#", "//")
+	header := engine.PickTag(c, "header-comment", "", "// TODO: file header", "/* é */", "/**\n * TODO (amy) doc header\n */", "#", "//",
+		// messages that are long in bytes but not in characters
+		"// TODO: 这个方法需要重新设计因为它现在做了太多的事情而且很难测试请在下个版本之前完成", "// FIXME(zoë): vérifier que la réservation reste cohérente après l'échec, ça dépend")
 	if header == "#" {
 		header = "" // '#' is not Java; the todo scan's hash comments are C17's subject
 	}
@@ -302,10 +304,67 @@ func c09Guard(res *engine.Result, pass string, fn func() interface{}) {
 	}
 }
 
+// c09ThroughCLI: the commands themselves, each in a child process, on a project holding the unit and a plain
+// file: every command must end with exit status 0.
+var c09ThroughCLI = false
+
+func c09GenCLI(c *engine.C) engine.Case {
+	cs := c09Gen(c)
+	return func() engine.Result {
+		c09ThroughCLI = true
+		defer func() { c09ThroughCLI = false }()
+		return cs()
+	}
+}
+
+func c09CheckCLI(fileName, src string) engine.Result {
+	files := []FileSpec{{Path: filepath.Join("proj", fileName), Content: src}, {Path: "proj/zz/Plain.java", Content: c09Plain}}
+	res := engine.Result{InputKey: "cli\n" + fileName + "\n" + src, Input: map[string]string{fileName: src, "through": "coca analysis / bs / api / tbs / todo / refactor"}, Nontrivial: true}
+	if n, first := javaSyntaxErrors(src); n > 0 {
+		res.Skipped = fmt.Sprintf("not valid for coca's grammar: %d errors (%s)", n, first)
+		return res
+	}
+	root, cleanup := materialise(files)
+	defer cleanup()
+	os.WriteFile(filepath.Join(root, "move.conf"), nil, 0o644)
+	var outcome []string
+	for _, args := range [][]string{{"analysis", "-p", "proj"}, {"bs", "-p", "proj"}, {"bs", "-p", "proj", "-s", "type"}, {"api", "-f", "-p", "proj", "-c"}, {"tbs", "-p", "proj"}, {"todo", "-p", "proj"}, {"refactor", "-m", "move.conf", "-p", "proj"}} {
+		r := runCLI(root, args...)
+		outcome = append(outcome, fmt.Sprintf("%s=%d", args[0], r.Exit))
+		if r.Exit != 0 {
+			what := "exit-status"
+			if r.TimedOut {
+				what = "timeout"
+			}
+			frame := PanicFrameOf(r.Stderr)
+			res.Violations = append(res.Violations, engine.V("cli-"+args[0], what+":"+frame, "coca %s ended with status %d on a project with one unusual file: %s", strings.Join(args, " "), r.Exit, trimTo(r.Stderr, 700)))
+		}
+	}
+	res.Outcome = strings.Join(outcome, " ")
+	return res
+}
+
+// PanicFrameOf extracts the first coca frame of a goroutine dump (for failure classes).
+func PanicFrameOf(stderr string) string {
+	for _, l := range strings.Split(stderr, "\n") {
+		if strings.HasPrefix(l, "github.com/modernizing/coca/") {
+			l = strings.TrimPrefix(l, "github.com/modernizing/coca/")
+			if i := strings.Index(l, "("); i > 0 {
+				l = l[:i]
+			}
+			return l
+		}
+	}
+	return "no-coca-frame"
+}
+
 func c09Check(fileName, src string) engine.Result {
 	if c09Record != nil {
 		c09Record(src)
 		return engine.Result{}
+	}
+	if c09ThroughCLI {
+		return c09CheckCLI(fileName, src)
 	}
 	files := []FileSpec{{Path: filepath.Join("one", fileName), Content: src}, {Path: filepath.Join("two", fileName), Content: src}, {Path: "two/zz/Plain.java", Content: c09Plain}}
 	res := engine.Result{InputKey: fileName + "\n" + src, Input: map[string]string{fileName: src}, Nontrivial: true}
@@ -506,6 +565,7 @@ func init() {
 				return cs
 			}},
 			{Name: "fixtures", KQuick: -1, KThor: -1, Gen: c09FixtureGen},
+			{Name: "commands-exit-status", KQuick: 1, KThor: 2, Gen: c09GenCLI},
 		},
 		Extra: c09RuleCoverage,
 	})
